@@ -703,7 +703,16 @@ impl World {
         if out.ok() {
             // evaluate on a scratch copy of the shadow
             let saved: Vec<(Pubkey, Option<Acc>)> = out.events.iter().flat_map(|e| e.pre.iter().map(|s| s.key)).map(|k| (k, self.shadow.get(&k).cloned())).collect();
+            self.last_pre.clear();
+            for (k, a) in &saved {
+                if let Some(a) = a {
+                    self.last_pre.insert(*k, a.clone());
+                }
+            }
             self.step_events(m, &out);
+            // "virtual commit": the transaction would commit with exactly this state, so the
+            // commit-time monitors can judge it without changing the chain
+            m.on_tx_commit(self, ixs, &out);
             for (k, a) in saved {
                 match a {
                     Some(a) => {
